@@ -488,6 +488,7 @@ def run_unit(u, bdir):
         canary_seen = canary_failed = False
         u.obligations = []
         u.failed = []
+        unknown = []
         for r in results:
             desc = r.get("description", "")
             st = r.get("status")
@@ -519,8 +520,17 @@ def run_unit(u, bdir):
                     if not u.inputs:
                         u.inputs = _inputs_from_model(r["model"])
             elif st != "SUCCESS":
-                raise Undecided("obligation %s has status %s" % (r.get("property"), st))
-        if u.canary:
+                unknown.append((r.get("property"), st))
+        if unknown and not u.failed:
+            raise Undecided("obligation %s has status %s" % unknown[0])
+        if u.failed:
+            # a refuted obligation decides the unit; cbmc leaves the obligations it did not get to (after an error path
+            # ends the run early) as UNKNOWN - they are recorded, not counted
+            u.undecided_obligations = unknown
+            for ob in u.obligations:
+                if ob["status"] not in ("SUCCESS", "FAILURE"):
+                    ob["status"] = "UNKNOWN (not reached: another obligation of this unit was refuted first)"
+        if u.canary and not (u.failed and unknown):
             if not canary_seen:
                 raise Undecided("canary assertion missing from results (harness generated no reachable end)")
             if not canary_failed:
